@@ -1080,6 +1080,7 @@ def rest_bridge(repo, seed=0, n=12):
                         c_, r_ = max(1, int(cpu) // prng.choice([1, 2, 4])), ram / prng.choice([1, 2, 3, 4, 7])
                         if ram >= 61:
                             r_ = max(60.5, r_)        # enough for the generator's prototypes most of the time
+                        r_ = min(r_, ram * 0.99)      # never the last ulp of the pool: the sum of the shares must stay admissible in floats
                         if c_ + 0.5 <= cpu and prng.random() < 0.4:
                             c_ = c_ + 0.5             # fractional CPU and RAM must arrive exactly as given
                         asg.append({"operator_ids": [o["id"] for o in chosen], "cpu": c_, "ram_gb": r_,
